@@ -149,7 +149,9 @@ func expNode(n *gen.SNode, key string) (string, error) {
 		for i := range names {
 			names[i] = strings.TrimSpace(names[i])
 		}
-		val = strings.TrimSpace(n.Lit) // the reference text as written
+		// the names as written, one blank on either side of the bars (the spacing of a
+		// choice is presentation: C14)
+		val = strings.Join(names, " | ")
 		if len(names) == 1 {
 			gen0 = append(gen0, "type=reference:"+names[0])
 		} else {
